@@ -130,13 +130,24 @@ func ruleload(args []string) {
 	}
 
 	var obs []map[string]interface{}
-	for n, c := range cases {
-		d := filepath.Join(*work, fmt.Sprintf("c%d", n))
+	// cases with the same files and pattern form share one directory, so that the value of the `rules`
+	// parameter is the same for them: instantiations that differ only in failOn / enable / disable follow
+	// each other in one process (anything remembered per rules value would show)
+	dirs := map[string]string{}
+	for _, c := range cases {
+		key := fmt.Sprint(c.Files, c.Pats, c.Groups)
+		d, seen := dirs[key]
+		if !seen {
+			d = filepath.Join(*work, fmt.Sprintf("c%d", len(dirs)))
+			dirs[key] = d
+		}
 		hx.Must(os.MkdirAll(d, 0o755))
 		var paths []string
 		if c.Groups {
 			p := filepath.Join(d, "r1.go")
-			hx.Must(os.WriteFile(p, []byte(groupsFile), 0o644))
+			if !seen {
+				hx.Must(os.WriteFile(p, []byte(groupsFile), 0o644))
+			}
 			paths = append(paths, p)
 		}
 		for j, k := range c.Files {
@@ -144,7 +155,9 @@ func ruleload(args []string) {
 				break
 			}
 			p := filepath.Join(d, fmt.Sprintf("r%d.go", j+1))
-			if k == "unreadable" {
+			if seen {
+				// already materialised
+			} else if k == "unreadable" {
 				hx.Must(os.MkdirAll(p, 0o755)) // a directory: os.ReadFile fails even for root
 			} else {
 				hx.Must(os.WriteFile(p, []byte(ruleFileSource(k, j+1)), 0o644))
@@ -209,6 +222,8 @@ func ruleload(args []string) {
 		o["skipLogs"] = strings.Count(logbuf.String(), "ruleguard init error, skip")
 		o["log"] = logbuf.String()
 		obs = append(obs, o)
+	}
+	for _, d := range dirs {
 		os.RemoveAll(d)
 	}
 	for k, v := range defaults {
